@@ -60,7 +60,8 @@ type c32Case struct {
 	ChunkSize   int64  `json:"chunk_size"`
 	Size        int    `json:"size"`
 	PartSizes   []int  `json:"part_sizes,omitempty"`
-	ListKind    string `json:"completion_list,omitempty"` // full | drop_first | drop_last | drop_middle | duplicated | reordered | wrong_etag | unknown_part | only_last
+	ListKind    string `json:"completion_list,omitempty"` // full | drop_first | drop_last | drop_middle | duplicated | reordered | wrong_etag | unknown_part | only_last | multiset_equal_len | multiset_any
+	List        []int  `json:"listed_part_numbers,omitempty"` // multiset_*: the part numbers of the completion list, in request order (right etag each)
 	ResendPart  bool   `json:"resend_part,omitempty"`
 	Alg         string `json:"checksum_alg"`
 	Checksum    string `json:"declared_checksum"` // none | right | right_upper | wrong
@@ -82,7 +83,7 @@ func (c c32Case) sig() string {
 	case c.Size > 64*1024:
 		sz = "large"
 	}
-	return fmt.Sprintf("%s/%s/%d/%s/%v/%s/%s/%s/%s/%v/%v/%d", c.Kind, sz, len(c.PartSizes), c.ListKind, c.ResendPart, c.Alg, c.Checksum, c.Broker, c.S3Fault, c.HasKey, c.CompleteTwo, c.Partition)
+	return fmt.Sprintf("%s/%s/%d/%s%v/%v/%s/%s/%s/%s/%v/%v/%d", c.Kind, sz, len(c.PartSizes), c.ListKind, c.List, c.ResendPart, c.Alg, c.Checksum, c.Broker, c.S3Fault, c.HasKey, c.CompleteTwo, c.Partition)
 }
 
 var c32BrokerModes = []string{"ok", "ok", "ok", "ok", "ok", "ok", "ok", "ok", "ok", "ok", "ok", "ok", "code:6", "code:3", "code:10", "code:7", "code:2", "code:29", "code:87", "code:-1", "code:19", "no_partition", "other_partition", "garbage", "garbage_hdr", "close", "half"}
@@ -156,6 +157,34 @@ func c32Gen(rng *rand.Rand, ci int, multipart bool) c32Case {
 	if c.ListKind == "drop_middle" {
 		nparts = 3
 	}
+	// any multiset over the uploaded part numbers (every entry carries the right
+	// etag of its part), in any order: lists of exactly as many entries as parts
+	// were uploaded that repeat one part and so omit another, and lists of any
+	// length 1..n+2
+	switch rng.Intn(8) {
+	case 0, 1:
+		c.ListKind = "multiset_equal_len"
+		if nparts < 2 {
+			nparts = 2 + rng.Intn(2)
+		}
+		for {
+			c.List = c.List[:0]
+			distinct := map[int]bool{}
+			for i := 0; i < nparts; i++ {
+				pn := 1 + rng.Intn(nparts)
+				c.List = append(c.List, pn)
+				distinct[pn] = true
+			}
+			if len(distinct) < nparts { // not a permutation: something is listed twice and something is missing
+				break
+			}
+		}
+	case 2:
+		c.ListKind = "multiset_any"
+		for i, l := 0, 1+rng.Intn(nparts+2); i < l; i++ {
+			c.List = append(c.List, 1+rng.Intn(nparts))
+		}
+	}
 	for i := 0; i < nparts; i++ {
 		if i < nparts-1 {
 			c.PartSizes = append(c.PartSizes, 5*c32MiB+rng.Intn(int(c.ChunkSize-5*c32MiB)+1))
@@ -194,7 +223,7 @@ type c32HTTPResult struct {
 
 func TestVerifC32Upload(t *testing.T) {
 	r := verifkit.Start(t, "C32", "upload")
-	defer r.Finish("uploads through the real HTTP handlers (routes and middleware of startHTTPServer, behind httptest) against an S3 stand-in with real multipart semantics and a scripted TCP broker. Single-request uploads: body sizes 1 B..10 MiB around the 5 MiB chunk boundary (PutObject and streamed multipart branches), declared checksum none/right/right-uppercase/wrong under sha256/md5/crc32/none, optional one-shot S3 failures. Multipart sessions: 1-3 parts (non-final parts 5 MiB..part size), a part re-sent, completion lists full / first, middle or last part dropped / only the last part / duplicated / reordered / wrong etag / unknown part number, completion repeated. Broker answers: success, per-partition error codes (6,3,10,7,2,29,87,-1,19), a reply without the partition, a reply for another partition, undecodable bytes, close, half a frame. Oracle on the FINAL response: status 2xx => object at envelope.key exists, len == envelope.size, SHA-256 == envelope.sha256, and the broker log holds a well-formed produce for the requested topic/partition whose record value is that envelope and whose answer acknowledged that partition with error code 0; any non-2xx status is accepted. non-trivial = the final request of the upload was issued",
+	defer r.Finish("uploads through the real HTTP handlers (routes and middleware of startHTTPServer, behind httptest) against an S3 stand-in with real multipart semantics and a scripted TCP broker. Single-request uploads: body sizes 1 B..10 MiB around the 5 MiB chunk boundary (PutObject and streamed multipart branches), declared checksum none/right/right-uppercase/wrong under sha256/md5/crc32/none, optional one-shot S3 failures. Multipart sessions: 1-3 parts (non-final parts 5 MiB..part size), a part re-sent, completion lists full / first, middle or last part dropped / only the last part / one part duplicated on top of the full list / reordered / wrong etag / unknown part number / any multiset over the uploaded part numbers with the right etags in any order, both of exactly the uploaded length (one part repeated, another omitted) and of any length 1..n+2; completion repeated. Broker answers: success, per-partition error codes (6,3,10,7,2,29,87,-1,19), a reply without the partition, a reply for another partition, undecodable bytes, close, half a frame. Oracle on the FINAL response: status 2xx => object at envelope.key exists, len == envelope.size, SHA-256 == envelope.sha256, and the broker log holds a well-formed produce for the requested topic/partition whose record value is that envelope and whose answer acknowledged that partition with error code 0; any non-2xx status is accepted. non-trivial = the final request of the upload was issued",
 		"'the broker has acknowledged the envelope record without error' is read as: the produce response carries an entry for the record's topic-partition with error code 0; a reply that cannot be decoded, or that has no entry for the partition, acknowledges nothing",
 		"the S3 stand-in follows the S3 API description for CompleteMultipartUpload (object = exactly the listed parts; ascending part numbers; etag must match; non-final parts >= 5 MiB)",
 		"HTTP client watchdog 120 s per request => inconclusive, never a violation")
@@ -241,7 +270,7 @@ func TestVerifC32Upload(t *testing.T) {
 		return c32HTTPResult{Status: resp.StatusCode, Body: b}, err
 	}
 
-	nSingle, nMulti := r.N(80, 1600), r.N(50, 1000)
+	nSingle, nMulti := r.N(80, 1600), r.N(64, 1200)
 	if v, err := strconv.Atoi(os.Getenv("C32_DEV_N")); err == nil && v > 0 {
 		nSingle, nMulti = v, v // development knob only; never set by bin/check
 	}
@@ -556,6 +585,10 @@ func c32Multipart(c c32Case, s3f *vfS3, do func(string, string, map[string]strin
 	case "unknown_part":
 		all()
 		list = append(list, lp{n + 1, etags[n]})
+	case "multiset_equal_len", "multiset_any":
+		for _, pn := range c.List {
+			list = append(list, lp{pn, etags[pn]})
+		}
 	}
 	seen := map[int]bool{}
 	for _, p := range list {
